@@ -385,3 +385,11 @@ func joinU64(xs []uint64) string {
 	}
 	return "[" + strings.Join(ss, ",") + "]"
 }
+
+// VERIF_ONLY=<h> replays a single history of a suite (every history has its own PRNG stream).
+var onlyHist = envInt("VERIF_ONLY", -1)
+
+func skipHist(h int) bool { return onlyHist >= 0 && int64(h) != onlyHist }
+
+// searchMode is set when the check looks for a failing input after an obligation broke.
+var searchMode = envStr("VERIF_MODE", "") == "search"
